@@ -326,9 +326,29 @@ def propagator_parities(prog: Program):
                 if dotted(inner) == "self._prop" and n_assign == 1:
                     aliases[st.targets[0].id] = k
                     continue
+        # a product of propagators held in a local of its own (`full = dot(P, P)` ... `full.T`):
+        # the local is read as the expression it stands for
+        import copy as _copy
+        from oqv.canon import _Subst
+        temps = {}
         for st in stmts:
             if isinstance(st, ast.Assign) and len(st.targets) == 1 \
-                    and isinstance(st.targets[0], ast.Name) and st.targets[0].id in aliases:
+                    and isinstance(st.targets[0], ast.Name) and st.targets[0].id not in aliases:
+                nm = st.targets[0].id
+                n_assign = sum(1 for s2 in stmts if isinstance(s2, (ast.Assign, ast.AugAssign))
+                               and any(isinstance(y, ast.Name) and y.id == nm
+                                       and isinstance(y.ctx, ast.Store) for y in ast.walk(s2)))
+                n_use = sum(1 for y in ast.walk(mu.node) if isinstance(y, ast.Name) and y.id == nm
+                            and isinstance(y.ctx, ast.Load))
+                if n_assign == 1 and n_use == 1 and isinstance(st.value, ast.Call) \
+                        and (dotted(st.value.func) or "").split(".")[-1] in ("dot", "matmul") \
+                        and any(dotted(y) == "self._prop" or (isinstance(y, ast.Name) and y.id in aliases)
+                                for y in ast.walk(st.value)):
+                    temps[nm] = st
+        for st in stmts:
+            if isinstance(st, ast.Assign) and len(st.targets) == 1 \
+                    and isinstance(st.targets[0], ast.Name) and \
+                    (st.targets[0].id in aliases or st.targets[0].id in temps):
                 continue
 
             def tgt(x):
@@ -338,6 +358,9 @@ def propagator_parities(prog: Program):
                 else st
             if root is None:
                 continue
+            if temps and any(isinstance(y, ast.Name) and y.id in temps for y in ast.walk(root)):
+                root = _Subst({k: v.value for k, v in temps.items()}).visit(_copy.deepcopy(root))
+                ast.fix_missing_locations(root)
             for (x, par) in occurrence_parities(root, tgt):
                 extra = aliases.get(x.id, 0) if isinstance(x, ast.Name) else 0
                 uses.append((mu, st, x, par + extra))
@@ -607,6 +630,16 @@ def k9(prog: Program, chk: Check) -> None:
     sv_names = {d.name for d in du.defs if d.value is not None and isinstance(d.value, ast.Call)
                 and (dotted(d.value.func) or "").split(".")[-1] == "svd"
                 and any(s_ == ("idx", 1) for s_ in d.sel)}
+    def _svd_call(v):
+        return isinstance(v, ast.Call) and (dotted(v.func) or "").split(".")[-1] == "svd"
+    # ... also when the triple is first held in a local (`factors = svd(..)` on both branches of
+    # the try, then `u, s, v = factors`)
+    for d in du.defs:
+        if d.value is not None and isinstance(d.value, ast.Name) and \
+                any(s_ == ("idx", 1) for s_ in d.sel):
+            src = [dd for dd in du.reaching(d.node, d.value.id)]
+            if src and all(dd.value is not None and not dd.sel and _svd_call(dd.value) for dd in src):
+                sv_names.add(d.name)
     if not sv_names:
         raise AnalysisError("K9: no `u, s, v = svd(...)` in TIBaseBackend._scipy_svd")
     n = 0
